@@ -29,6 +29,20 @@ def rint(rng):
     return rng.choice([0, 1, -1, 2 ** 63, -2 ** 63, 2 ** 64, 10 ** 40, -(10 ** 40)])
 
 
+def bigstr(n):
+    """str(n) for integers of any size: the host's digit limit is lifted for this one conversion only (the harness must not
+    change the setting the implementation runs under)"""
+    import sys
+    if not hasattr(sys, 'get_int_max_str_digits'):
+        return str(n)
+    old = sys.get_int_max_str_digits()
+    sys.set_int_max_str_digits(0)
+    try:
+        return str(n)
+    finally:
+        sys.set_int_max_str_digits(old)
+
+
 def tdiv(n, d):
     q = abs(n) // abs(d)
     return q if (n >= 0) == (d >= 0) else -q
@@ -160,11 +174,11 @@ def cases(rng, tier):
         for sgn in (1, -1):
             for off in (0, 1, -1, rng.randint(2, 10 ** 9)):
                 n_ = sgn * (2 ** e + off)
-                yield Case(program=render(bi('ㅈㅅ', lit(n_))), tag='to-int-huge', monitor='c11_expect', data=str(n_))
+                yield Case(program=render(bi('ㅈㅅ', lit(n_))), tag='to-int-huge', monitor='c11_expect', data=bigstr(n_))
                 yield Case(program=render(bi('ㄴ', bi('ㅈㅅ', lit(n_)), lit(n_))), tag='to-int-huge-eq', monitor='c11_expect', data='True')
-                yield Case(program=render(bi('ㅈㅅ', bi('ㅁㅈ', lit(n_)))), tag='to-int-huge-str', monitor='c11_expect', data=str(n_))
-                yield Case(program=render(bi('ㅈㅅ', bi('ㄱ', lit(n_), lit(3)))), tag='to-int-huge-product', monitor='c11_expect', data=str(3 * n_))
-                yield Case(program=render(bi('ㄴㄴ', lit(n_), lit(7))), tag='quot-huge', monitor='c11_expect', data=str(tdiv(n_, 7)))
+                yield Case(program=render(bi('ㅈㅅ', bi('ㅁㅈ', lit(n_)))), tag='to-int-huge-str', monitor='c11_expect', data=bigstr(n_))
+                yield Case(program=render(bi('ㅈㅅ', bi('ㄱ', lit(n_), lit(3)))), tag='to-int-huge-product', monitor='c11_expect', data=bigstr(3 * n_))
+                yield Case(program=render(bi('ㄴㄴ', lit(n_), lit(7))), tag='quot-huge', monitor='c11_expect', data=bigstr(tdiv(n_, 7)))
                 yield Case(program=render(bi('ㅈ', lit(n_), lit(n_ + 1))), tag='lt-huge', monitor='c11_expect', data='True')
                 try:
                     float(n_)
